@@ -170,7 +170,7 @@ theorem C17_alignedSpec (dbg : Bool) : AlignedSpec dbg := by
 
 /-- The statement of DESIGN §8 C17 (all offsets, aligned or not) from the aligned kernel: `shift_bytes`, its
     carry and the recursion are covered here. -/
-theorem C17_partial (dbg : Bool) (hA : AlignedSpec dbg) (off : Nat) (bytes : List Nat)
+theorem C17_of_alignedSpec (dbg : Bool) (hA : AlignedSpec dbg) (off : Nat) (bytes : List Nat)
     (hb : ∀ b ∈ bytes, b < 256) (hfit : off + 8 * bytes.length ≤ 4294967296) :
     ∃ b, fromLsb0 dbg off bytes = some b ∧ BitmapWF b ∧
       ∀ x, x ∈ Bitmap.elems b ↔
@@ -195,7 +195,7 @@ theorem C17 (dbg : Bool) (off : Nat) (bytes : List Nat)
     ∃ b, fromLsb0 dbg off bytes = some b ∧ Bitmap.WF b ∧
       ∀ x, x ∈ Bitmap.elems b ↔
         ∃ i j byte, bytes[i]? = some byte ∧ j < 8 ∧ byte.testBit j = true ∧ x = off + 8 * i + j := by
-  obtain ⟨b, h1, h2, h3⟩ := C17_partial dbg (C17_alignedSpec dbg) off bytes hb hfit
+  obtain ⟨b, h1, h2, h3⟩ := C17_of_alignedSpec dbg (C17_alignedSpec dbg) off bytes hb hfit
   exact ⟨b, h1, (bitmapWF_iff b).1 h2, h3⟩
 
 /-- C17 in SPEC terms: the elements of the result are the list `Spec.bitsOfBytes off bytes`. -/
